@@ -569,9 +569,18 @@ class ExprMixin:
             if z3.is_false(ct):
                 out.extend(self.ev(node.orelse, s)); continue
             if self.spec_depth:
+                # the path condition may settle the choice (e.g. a flag the executed path has already tested)
+                if not feasible(list(s.pc) + [ct], 300):
+                    out.extend(self.ev(node.orelse, s)); continue
+                if not feasible(list(s.pc) + [z3.Not(ct)], 300):
+                    out.extend(self.ev(node.body, s)); continue
                 a = self.ev(node.body, s)[0][1]
                 b = self.ev(node.orelse, s)[0][1]
-                out.append((s, ite(ct, a, b)))
+                try:
+                    out.append((s, ite(ct, a, b)))
+                except MergeError:
+                    # branches of different shape (a bare value / a tuple): keep the choice symbolic; equality distributes over it
+                    out.append((s, VSpecIte(ct, a, b)))
                 continue
             sa = s.fork().assume(ct)
             sb = s.fork().assume(z3.Not(ct))
